@@ -46,6 +46,13 @@ class StmtMixin:
 
     def st_Assign(self, s):
         v = self.ev(s.value)
+        if self.cfg.loop_marks and len(s.targets) == 1 and isinstance(s.targets[0], ast.Name) and v.t and v.t[0] == "list":
+            # work-list bookkeeping a rule may want to follow: a list variable takes over another one / starts empty
+            if isinstance(s.value, ast.Name):
+                self.emit(Event("mark", "rebind-list", v, None, (), {"__var__": const(s.targets[0].id), "__from__": const(s.value.id)},
+                                site=self.here(s)))
+            elif not v.t[1]:
+                self.emit(Event("mark", "fresh-list", v, None, (), {"__var__": const(s.targets[0].id)}, site=self.here(s)))
         for tg in s.targets:
             self.bind_target(tg, v, s)
 
@@ -66,7 +73,7 @@ class StmtMixin:
                 else:
                     new = V(("list", cur.t[1] + (("star", val.t),)), cur.ty, cur.dep | val.dep)
                     self._remember([val])
-                self.emit(Event("local", "list.extend", cur, None, (val,), site=self.here(s)))
+                self.emit(Event("local", "list.extend", cur, None, (val,), {"__var__": const(tg.id)}, site=self.here(s)))
             else:
                 new = self.binop(op, cur, val, s)
             if d is not None and d is not self.frames[-1].env:
@@ -178,7 +185,8 @@ class StmtMixin:
                     break
             el = self.iter_elem(it, k, s.iter)
             self.bind_target(s.target, el)
-            if self.cfg.loop_marks and isinstance(s.iter, ast.Name) and it0.t and it0.t[0] == "list":
+            if self.cfg.loop_marks and isinstance(s.iter, ast.Name) and it0.t and (
+                    it0.t[0] == "list" or (it0.t[0] == "call" and it0.t[1] == "list") or py("list") in (it0.ty or ())):
                 # iteration over a local list variable: a rule may want to treat it as taking the head of a work list
                 self.emit(Event("mark", "for-over-list", it0, const(k), (el,), {"__var__": const(s.iter.id)}, site=site))
             fr.loop.append(("for", site, k))
